@@ -52,6 +52,8 @@ Definition check_c10g (c : c10g_case) : list string :=
   | [] => ["mismatch:no-observation"]
   | r0 :: more =>
       tag_if (negb (forallb (gout_eqb r0) more)) "viol:grouping-depends-on-map-order" ++
+      (* regression of fix d47e591 (make([]*group, 0, budget)) or any other crash *)
+      tag_if (existsb (fun r => match r with GPanic => true | _ => false end) (o_runs c)) "viol:grouping-panics" ++
       tag_if (negb (match model_gout c with Some m => forallb (gout_eqb m) (o_runs c) | None => false end))
         "mismatch:groups" ++
       flat_map (fun r => match r with
